@@ -56,13 +56,16 @@ TRGet   == /\ Ev.ev = "RGet" /\ Ev.pid \in lock.readers /\ lock.writer = None
            /\ UNCHANGED <<lock, file, pend>>
 TREnd   == /\ Ev.ev = "REnd" /\ Ev.pid \in lock.readers
            /\ lock' = [lock EXCEPT !.readers = @ \ {Ev.pid}] /\ UNCHANGED <<file, pend>>
+(* written as a value: a quantifier that is a conjunct of an action is evaluated by recursion over its range (thousands of keys) *)
+SameContent(c) == IF \A k \in DOMAIN file : c[k] = file[k] THEN TRUE ELSE FALSE
+
 (* after a session that ended with an exception, a foreign process obtained the write lock while   *)
 (* the session's process was idle (emitted outside the lock: no constraint on the model state)    *)
 TProbe  == /\ Ev.ev = "Probe" /\ Ev.lock = "acquired" /\ UNCHANGED <<lock, file, pend>>
 TFinal  == /\ Ev.ev = "Final" /\ Ev.lock = "acquired"
            /\ lock.writer = None /\ lock.readers = {}                  \* every session released its lock
            /\ DOMAIN Ev.content = DOMAIN file
-           /\ \A k \in DOMAIN file : Ev.content[k] = file[k]           \* nothing lost, nothing altered
+           /\ SameContent(Ev.content) = TRUE                            \* nothing lost, nothing altered
            /\ UNCHANGED <<lock, file, pend>>
 
 Step == /\ ti <= NT /\ l <= Len(Tr)
